@@ -1,6 +1,7 @@
 """C01 — degree-preserving rewiring keeps every node's degree and the weight multiset."""
 import sys
 from common import *  # noqa
+sys.path.insert(0, os.path.join(VERIF, 'translate')); import cores  # noqa: E402
 import rewire_common as rc
 import randbin_corr
 sys.path.insert(0, os.path.join(VERIF, 'translate')); import kernels
@@ -47,9 +48,13 @@ def main():
     ck.cov['kernels'] = kernels.generate()
     for p_ in ck.cov['kernels']['problems']:
         ck.corr_break('kernel extractor (translate/kernels.py)', p_)
+    # T-gen source pins (translate/cores.py): rename-tolerant normalised bodies of the routines this check covers that have no interpreted tie
+    ck.cov['cores'] = cores.generate(families=['pinrew'])
+    for p_ in ck.cov['cores']['problems']:
+        ck.corr_break('core extractor (translate/cores.py)', p_)
     ok = ck.lean_gate(['BctVerif.Props.C01', 'BctVerif.Props.C01Kernel', 'BctVerif.Props.C01RandBin'],
                       extra_modules=['BctVerif.Model.Rewire', 'BctVerif.Model.Kernel', 'BctVerif.Model.RandBin'])
-    ck.lean_gate([], gen_modules=['BctVerif.Gen.Kernels'])
+    ck.lean_gate([], gen_modules=['BctVerif.Gen.Kernels', 'BctVerif.Gen.CoresPinRewire'])
     if ck.tier == 'thorough' and ok:
         ck.leanchecker(['BctVerif.Props.C01', 'BctVerif.Props.C01Kernel', 'BctVerif.Props.C01RandBin', 'BctVerif.Model.Rewire', 'BctVerif.Model.Kernel', 'BctVerif.Model.RandBin', 'BctVerif.Gen.Kernels'])
     if ck.replay:
